@@ -126,6 +126,26 @@ def coq_project_text() -> str:
     return f"-Q . {LOGICAL}\n-arg -w -arg -all\n" + "\n".join(files) + "\n"
 
 
+def ensure_generated():
+    """Bootstrap for a fresh restore: every check regenerates the tables it is ABOUT from /repo itself, but property
+    files also import tables of other properties (C06 imports C02's States, C03 the E2E name table ...).  If one of
+    the shared generated files is missing, run the generators once the way setup.sh does (all tables, from the
+    current REPO)."""
+    gen = COQ / "Generated"
+    essential = ["States.v", "Stages.v", "E2ENames.v", "FF_AMBER.v", "Topology.v", "Titration.v", "MovesTable.v", "FlipTable.v", "Survivors.v", "C03Table.v", "C05Table.v"]
+    if all((gen / f).exists() for f in essential):
+        return
+    gen.mkdir(parents=True, exist_ok=True)
+    env = {**os.environ, "VERIF_REPO": str(REPO), "PYTHONPATH": f"{REPO}:{VERIF}"}
+    for script in ("all.py", "c03_table.py", "c05_table.py", "e2e_names.py"):
+        f = VERIF / "gen" / script
+        if f.exists():
+            try:
+                subprocess.run([sys.executable, str(f)], capture_output=True, text=True, timeout=900, env=env, cwd=str(VERIF))
+            except Exception:  # noqa  (the check that needs the table reports generator-broken / proof-broken itself)
+                pass
+
+
 def ensure_makefile():
     txt = coq_project_text()
     changed = write_if_changed(COQ / "_CoqProject", txt)
